@@ -1,6 +1,7 @@
 import Driver.Util
 import Driver.OpsC13
 import Driver.OpsRpu
+import Driver.OpsAv1
 /-! `dovi_model`: the executable model behind the line protocol (one case per line in, one result per line out). -/
 open Driver
 
@@ -9,6 +10,7 @@ def step (line : String) : String :=
   match parts with
   | op :: _ =>
     if ["esc", "unesc", "hesc", "hunesc", "escdigest"].contains op then C13.run parts
+    else if op.startsWith "av1." then Av1Ops.run parts
     else if op.startsWith "rpu." || op.startsWith "nalu." then RpuOps.run parts
     else "bad-op"
   | [] => "bad-op"
